@@ -62,6 +62,9 @@ def handle (inp out : List String) : String :=
       verdict [m] out (if out = ["abort"] ∧ m ≠ "abort" then some "constructor-aborts-the-process"
                        else if out = ["ok"] ∧ !wellFormedPattern p then some "constructor-accepts-a-malformed-puncturing-pattern" else none)
     | _, _ => "BADLINE c19 ector"
+  | ["notutf8", _] =>
+    -- a C string that is not valid UTF-8 is converted lossily (U+FFFD), which is neither a pattern item nor part of a name: null
+    verdict ["null", "null", "null", "null"] out (if out ≠ ["null", "null", "null", "null"] then some "constructor-accepts-a-string-that-is-not-valid-UTF-8" else none)
   | ["nofile", _] =>
     -- the model has no file system: an unreadable alist file must give a null handle from both constructors
     verdict ["null", "null"] out (if out ≠ ["null", "null"] then some "unreadable-file-does-not-give-null" else none)
